@@ -90,9 +90,31 @@ def run_case(case):
             sig["beta_true_below_1"] = bool(th["beta"] < 1)
             if gap is not None:
                 sig["ll_gap_below_100"] = bool(abs(gap) < 100)
+        # witnesses that tie a violation to the mechanism of a known finding (anything else is reported as new)
+        try:
+            cs = [detail.get("scale_factor", 1.0)] + ([1.0] if clause == "not_scale_equivariant" else [])
+            if fam == "LogNormalNormFitDistribution":
+                # the 'mle' of this class is the moment estimator by design
+                sig["fit_equals_sample_moments"] = bool(all(
+                    c_ in res and abs(res[c_]["mu_norm"] - np.mean(data * c_)) <= 1e-12 * abs(np.mean(data * c_))
+                    and abs(res[c_]["sigma_norm"] - np.std(data * c_, ddof=1)) <= 1e-12 * np.std(data * c_, ddof=1) for c_ in cs))
+            if fam == "WeibullDistribution" and gamma_free and not case.get("fix_param"):
+                # the estimate is exactly what scipy's optimiser returns from the same start values (the deficiency is the optimiser's)
+                import scipy.stats as sts
+                ok_ = True
+                for c_ in cs:
+                    st_ = start_for(c_)
+                    sp_ = dict(zoo.FAMILIES[fam][0](**dict(st_ or {})).parameters)
+                    b_, g_, a_ = sts.weibull_min.fit(data * c_, sp_["beta"], loc=sp_["gamma"], scale=sp_["alpha"])
+                    r_ = res.get(c_)
+                    ok_ = ok_ and r_ is not None and all(abs(r_[k_] - v_) <= 1e-10 * max(abs(v_), 1e-12) for k_, v_ in (("alpha", a_), ("beta", b_), ("gamma", g_)))
+                sig["fit_equals_direct_scipy_optimiser_result"] = bool(ok_)
+        except Exception as e:   # a witness that cannot be computed never matches a known finding
+            detail = dict(detail, witness_error=f"{type(e).__name__}: {e}"[:160])
         if not any(v["sig"] == sig for v in viol):
             viol.append({"sig": sig, "detail": detail, "case": case})
 
+    res = {}
     data = np.asarray(zoo.make(fam, th).draw_sample(n, random_state=seed), dtype=float)
     fixed = {}
     if fam == "WeibullDistribution" and fixg:
@@ -117,7 +139,6 @@ def run_case(case):
             s[k] = v * (0.7 if (t == "scale" and zoo.FAMILIES[fam][2][zoo.FAMILIES[fam][1].index(k)] in ("loc", "mu")) else 1.3) if t != "none" else v + 0.2
         return scale_params(fam, s, c)
 
-    res = {}
     for c in [1.0] + case["scales"]:
         dc = data * c
         if c != 1.0 and fam == "VonMisesDistribution":
